@@ -14,7 +14,7 @@ LEVEL = "fault_enumeration"
 RULE = ("fault enumeration: one fresh interpreter per (termination mode x statement position k in 0..N x file-writing "
         "backend in {snarkjs, zkinterface, qaptools} x autoprove on/off). The script traces N statements (one product "
         "constraint each) and terminates at position k by: falling off the end, sys.exit() / (0) / (None) / (False) / "
-        "(3) / ('msg'), an uncaught ValueError / ZeroDivisionError / custom exception, KeyboardInterrupt, raise "
+        "(1) / (-1) / (3) / (True) / ('msg') / ('') / ('0'), an uncaught ValueError / ZeroDivisionError / custom exception, KeyboardInterrupt, raise "
         "SystemExit / SystemExit(0) / SystemExit(3), builtin exit(0) / exit(3), an exception raised and caught, a "
         "sys.exit(3) caught by the script which then ends normally. A prologue counts calls of backend.prove in a side "
         "file. Oracle: the exit status is the one plain Python gives for that termination; status 0 and autoprove on => "
@@ -33,6 +33,11 @@ MODES = {
     "sys.exit(False)":  ("sys.exit(False)", 0, False),
     "sys.exit(3)":      ("sys.exit(3)", 3, False),
     "sys.exit('msg')":  ("sys.exit('msg')", 1, False),
+    "sys.exit('')":     ("sys.exit('')", 1, False),
+    "sys.exit('0')":    ("sys.exit('0')", 1, False),
+    "sys.exit(True)":   ("sys.exit(True)", 1, False),
+    "sys.exit(1)":      ("sys.exit(1)", 1, False),
+    "sys.exit(-1)":     ("sys.exit(-1)", 255, False),
     "ValueError":       ("raise ValueError('boom')", 1, False),
     "ZeroDivisionError": ("1/0", 1, False),
     "custom":           ("raise type('Custom', (Exception,), {})('x')", 1, False),
